@@ -245,9 +245,14 @@ def run(ctx: Ctx) -> None:
     ctx.partial += [
         "the delimiter matching is laminar — PROVED (Props/C02e.lean pairs_laminar): processDelimiters is modelled statement by "
         "statement (openersBottom, jumps, headerIdx, the rule of 3) and tied call by call to the real function; for every delimiter "
-        "array with unset ends, whatever the markers, lengths and flags, the pairs it forms are ordered and never cross. NOT PROVED: "
-        "that emphasis / strikethrough postProcess turn exactly these pairs into open/close tokens of one kind (those rules and "
-        "scanDelims are not modelled): covered by the oracle incl. the bounded-exhaustive delimiter sweep",
+        "array with unset ends, whatever the markers, lengths and flags, the pairs it forms are ordered and never cross (+ pairs_facts: a "
+        "closer closes one opener, no delimiter is in two pairs, marker/token/length untouched). The emphasis rule is modelled too "
+        "(scanDelims with the T1 classification tables, tokenize, _postProcess) and tied through the inline differential runs; "
+        "PROVED (Props/C02f.lean emini_wellformed): for every source, every subset of newline/escape/backticks with emphasis on, every "
+        "maxNesting and every character classification, the inline stream after balance_pairs, the emphasis post-processing and "
+        "fragments_join is levelled from 0, balanced, and SyntaxTreeNode builds. NOT PROVED: that the open/close tokens of one pair "
+        "carry the same tag in stack order at the token level (it follows informally from pairs_laminar; strikethrough, links and "
+        "images are not modelled): covered by the oracle incl. the bounded-exhaustive delimiter sweep",
         "balance and levels of the block-level stream follow from the segment contract K5 (engine theorem loop_segs); K5 is "
         "PROVED for code, fence, hr, heading, paragraph (Props/C02b.lean segOK_*), giving the unconditional mini_wellformed "
         "(levelled from 0, balanced, SyntaxTreeNode builds) for that sub-parser, whose model is tied by the `miniblock` "
